@@ -187,10 +187,15 @@ def bound_sweep(ctx):
 def run(ctx):
     judge_selftest(ctx)
     plans = c01.gen_plans(ctx, [0] if ctx.quick else [0] + [ctx.seed * 100 + k for k in range(1, 6)])
+    allplans = plans
     plans = [p for p in plans if p["entry"] in C02_ENTRIES]
     ctx.log("plans from TLC for C02 entries: %d" % len(plans))
     build.lib("asan"); build.lib("plain")
     jobs = c01.build_jobs(ctx, plans, {"lz", "file"}, sweeps=False)
+    # Index Padding 2 and 3 with every multi-call Index producer, 1-byte grants / a grant ending inside the padding
+    for plan, inp in cases.padding_jobs(plans + allplans):
+        jobs.append(dict(idx=len(jobs), plan=plan, inp=inp, seed=ctx.rng.randrange(1 << 30), variant="asan",
+                         want={"lz", "file"}, quick=ctx.quick))
     for j in jobs:
         j["mode"] = "agg"
     order = sorted(range(len(jobs)), key=lambda k: -jobs[k]["inp"]["n"])
